@@ -143,6 +143,7 @@ def run(gen_path, meta, rlimit=20, multiple_errors=5, seed=None, threads=4, time
         ob = {
             'kind': kind, 'message': msg, 'clause': clause, 'site': site,
             'fn': reg['fn'] if reg else None, 'props': reg.get('props') if reg else None,
+            'imported': reg.get('imported') if reg else None,
             'gen_line': where_line, 'rendered': d.get('rendered', '')[:3000],
         }
         if ob['props'] is not None and ('alloc_ok' in clause or 'ALLOC_COUNT_MAX' in clause):
